@@ -187,9 +187,7 @@ def string_pref_post(pref_list, ties_indicators, result):
 
 # ------------------------------------------------------------------ C08 helpers
 
-def even_spread(total, n):
-    q, r = divmod(int(total), n)
-    return [q + 1 if i < r else q for i in range(n)]
+from .spec import even_spread  # noqa: E402
 
 
 def create_quotas_post(n, sum_q, result):
